@@ -156,6 +156,11 @@ func Eval(e ast.Expr, doc jv.Val) (Res, Events) {
 		return Res{Undet: in.f.undet}, ev
 	}
 	if in.f.err != 0 {
+		if st.ZeroStep {
+			// an implementation may reject [::0] when compiling, before any
+			// run-time fault can happen
+			in.f.err |= InvValue
+		}
 		return Res{Err: in.f.err}, ev
 	}
 	if st.ZeroStep {
